@@ -243,9 +243,16 @@ func (b *recBase) ReplicateMultiple(ctx context.Context, digests digest.Set) err
 	return nil
 }
 
-func runReplicators(t *testing.T, id string, seed int64, coop bool) (o map[string]any) {
+// directed: the schedule of the known finding "a waiter joins a replication whose confirmation precedes its own
+// request": c1 checks the sink (the answer is computed, c1 has not yet taken the lock again), c2 asks for the same
+// object, then c1 finishes.
+func runReplicators(t *testing.T, id string, seed int64, coop bool, directed ...bool) (o map[string]any) {
+	isDirected := len(directed) > 0 && directed[0]
 	rng := rand.New(rand.NewSource(seed))
 	dec := []string{"dedup", "limit", "queued", "dedup+limit"}[rng.Intn(4)]
+	if isDirected {
+		dec = "dedup"
+	}
 	limit := 1 + rng.Intn(2)
 	o = map[string]any{"ev": "Replicator", "id": id, "dec": dec, "limit": limit, "panic": "", "hang": false, "callers": []any{}}
 	if dec == "queued" {
@@ -256,7 +263,11 @@ func runReplicators(t *testing.T, id string, seed int64, coop bool) (o map[strin
 		Objs              []string `json:"objs"`
 		Res               string   `json:"res"`
 		ConfirmedAfterAsk bool     `json:"confirmedAfterAsk"`
-		done              bool
+		// every object was confirmed after the start of some request for it that was still running when this
+		// caller asked (the caller may have joined that request's replication)
+		ConfirmedWithinOverlap bool `json:"confirmedWithinOverlap"`
+		ask, end               int
+		done                   bool
 	}
 	var results []*callerRes
 	var base *recBase
@@ -308,7 +319,14 @@ func runReplicators(t *testing.T, id string, seed int64, coop bool) (o map[strin
 		// the sink's FindMissing is a scheduling point and a confirmation
 		sink.GateCtx = func(ctx context.Context, op string, objs []string, present []string) {
 			if op == "FindMissing" {
-				sc.Gate("fm:" + sched.Proc(ctx))
+				if !isDirected {
+					sc.Gate("fm:" + sched.Proc(ctx))
+				}
+				defer func() {
+					if isDirected {
+						sc.Gate("fm:" + sched.Proc(ctx)) // the sink has answered; the answer is on its way to the caller
+					}
+				}()
 				cmu.Lock()
 				base.mu.Lock()
 				for _, n := range present {
@@ -322,15 +340,26 @@ func runReplicators(t *testing.T, id string, seed int64, coop bool) (o map[strin
 		ncallers := 2 + rng.Intn(3)
 		var wg sync.WaitGroup
 		var cancels []context.CancelFunc
+		cancellables := []bool{}
 		for i := 0; i < ncallers; i++ {
 			objs := []string{[]string{"p", "q", "r"}[rng.Intn(2)]}
 			if rng.Intn(3) == 0 {
 				objs = append(objs, "r")
 			}
-			res := &callerRes{Objs: objs}
-			results = append(results, res)
+			results = append(results, &callerRes{Objs: objs})
+			cancellables = append(cancellables, rng.Intn(4) == 0)
+		}
+		if isDirected {
+			sink.Store("q", "")
+			results = []*callerRes{{Objs: []string{"q"}}, {Objs: []string{"q"}}}
+			cancellables = []bool{false, false}
+			ncallers = 2
+		}
+		for i := 0; i < ncallers; i++ {
+			res := results[i]
+			objs := res.Objs
 			p := fmt.Sprintf("c%d", i+1)
-			cancellable := rng.Intn(4) == 0
+			cancellable := cancellables[i]
 			wg.Add(1)
 			go func() {
 				defer wg.Done()
@@ -344,6 +373,7 @@ func runReplicators(t *testing.T, id string, seed int64, coop bool) (o map[strin
 				base.mu.Lock()
 				clock++
 				ask := clock
+				res.ask = ask
 				base.mu.Unlock()
 				ctx := sched.WithProc(context.Background(), p)
 				if cancellable {
@@ -359,17 +389,45 @@ func runReplicators(t *testing.T, id string, seed int64, coop bool) (o map[strin
 					res.Res = "ERR"
 				}
 				base.mu.Lock()
-				res.ConfirmedAfterAsk = true
+				clock++
+				res.end = clock
+				res.ConfirmedAfterAsk, res.ConfirmedWithinOverlap = true, true
 				for _, n := range objs {
 					if base.confirmed[n] < ask {
 						res.ConfirmedAfterAsk = false
+					}
+					// the earliest request for n that was still running when this caller asked
+					from := ask
+					for _, other := range results {
+						wants := false
+						for _, m := range other.Objs {
+							wants = wants || m == n
+						}
+						if wants && other.ask > 0 && other.ask < from && (other.end == 0 || other.end > ask) {
+							from = other.ask
+						}
+					}
+					if base.confirmed[n] < from {
+						res.ConfirmedWithinOverlap = false
 					}
 				}
 				base.mu.Unlock()
 				res.done = true
 			}()
 		}
-		if coop {
+		if coop && isDirected {
+			synctest.Wait()
+			sc.Release("start:c1")
+			synctest.Wait() // c1 is the leader; the sink has confirmed q
+			sc.Release("start:c2")
+			synctest.Wait() // c2 waits for c1
+			sc.Release("fm:c1")
+			synctest.Wait()
+			for _, l := range sc.Parked() {
+				sc.Release(l)
+				synctest.Wait()
+			}
+		} else if coop {
 			synctest.Wait()
 			for steps := 0; steps < 500; steps++ {
 				parked := sc.Parked()
@@ -417,6 +475,7 @@ func TestReplicators(t *testing.T) {
 	for r := 0; r < runs/3; r++ {
 		w.Emit(runReplicators(t, fmt.Sprintf("free/%d", r), seed*104729+int64(r), false))
 	}
+	w.Emit(runReplicators(t, "directed/waiter-joins-after-leader-check", 1, true, true))
 	b, _ := json.Marshal(map[string]any{"runs": runs + runs/3})
 	os.WriteFile(filepath.Join(out, "replicators_summary.json"), b, 0o644)
 }
